@@ -33,6 +33,10 @@ RESET_REF = [[0xB0 | ch, cc, 0] for ch in range(16) for cc in (123, 121)]
 PANIC_REF = [[0xB0 | ch, 120, 0] for ch in range(16)]
 
 
+class ModelOSError(Exception):
+    pass
+
+
 class MDev:
     """Model of the device double."""
 
@@ -44,6 +48,7 @@ class MDev:
         self.sends = []
         self.closes = 0
         self.autoreset = autoreset
+        self.fail_after = None
         self._p = mido.Parser()
 
     def pump(self):
@@ -58,11 +63,21 @@ class MDev:
     def close(self):
         if not self.closed:
             if self.autoreset:
-                self.sends.extend(RESET_REF)
+                self.reset_sent = 0
+                try:
+                    for b in RESET_REF:
+                        self.send(b)
+                        self.reset_sent += 1
+                except ModelOSError:
+                    pass                # a device that fails during the reset is still released, exactly once
             self.closes += 1
             self.closed = True
 
     def send(self, b):
+        if self.fail_after is not None:
+            if self.fail_after <= 0:
+                raise ModelOSError()
+            self.fail_after -= 1
         self.sends.append(b)
 
     def poll(self):
@@ -238,10 +253,11 @@ class Interp:
             # reset messages come before the device is released
             if m.autoreset and closes:
                 idx = [j for j, c in enumerate(d.calls) if c[0] == 'close'][0]
-                tail = [c[1].bytes() for c in d.calls[max(0, idx - 32):idx] if c[0] == 'send']
-                if tail != RESET_REF:
-                    self._fail('reset-before-close', f'after {op}: the 32 reset messages do not directly precede _close',
-                               op=op[0])
+                k = getattr(m, 'reset_sent', 32)
+                tail = [c[1].bytes() for c in d.calls[max(0, idx - k):idx] if c[0] == 'send']
+                if tail != RESET_REF[:k]:
+                    self._fail('reset-before-close', f'after {op}: the {k} reset messages the device accepted do not '
+                                                     f'directly precede _close', op=op[0])
         if w.port.closed != (w.mclosed if self.kind != 'device' else w.mdevs[0].closed):
             self._fail('closed-flag', f'after {op}: port.closed={w.port.closed}', op=op[0])
 
@@ -274,6 +290,12 @@ class Interp:
             w.apply(['eof', 0])
             if pending:
                 self.nt = True
+        elif kind == 'fail_sends':
+            if not w.devs:
+                return
+            di = op[1] % len(w.devs)
+            w.devs[di].fail_after = op[2]
+            w.mdevs[di].fail_after = op[2]
         elif kind == 'script':
             acts = []
             for a in op[1]:
@@ -291,34 +313,48 @@ class Interp:
                 if res[0] != 'exc' or not isinstance(res[1], ValueError):
                     self._fail('send-after-close', f'send on a closed port: {res}')
             else:
-                if res[0] != 'ok':
+                failed = False
+                try:
+                    if self.kind == 'device':
+                        w.mdevs[0].send(m.bytes())
+                    elif self.kind == 'ioport':
+                        w.mdevs[1].send(m.bytes())
+                    elif self.kind == 'echo':
+                        w.mqueue.append(m)
+                    else:
+                        for d in w.mdevs:
+                            if not d.closed:
+                                d.send(m.bytes())
+                except ModelOSError:
+                    failed = True
+                if failed:
+                    if res[0] != 'exc' or not isinstance(res[1], OSError):
+                        self._fail('send-device-error', f'device raised OSError in _send but send() gave {res}')
+                elif res[0] != 'ok':
                     self._fail('send-raises', f'{res[1]!r}', exc=exc_sig(res[1]) if res[0] == 'exc' else 'budget')
-                if self.kind == 'device':
-                    w.mdevs[0].send(m.bytes())
-                elif self.kind == 'ioport':
-                    w.mdevs[1].send(m.bytes())
-                elif self.kind == 'echo':
-                    w.mqueue.append(m)
-                else:
-                    for d in w.mdevs:
-                        if not d.closed:
-                            d.send(m.bytes())
             if sleeps:
                 self._fail('send-sleeps', f'send slept {sleeps} times')
         elif kind in ('reset', 'panic'):
             closed = w.mclosed if self.kind != 'device' else w.mdevs[0].closed
             res, sleeps = self._call(getattr(port, kind))
-            if res[0] != 'ok':
-                self._fail(f'{kind}-raises', f'{res}')
+            failed = False
             if not closed:
                 ref = RESET_REF if kind == 'reset' else PANIC_REF
-                targets = {'device': [0], 'ioport': [1], 'echo': [], 'multi': [i for i, d in enumerate(w.mdevs)
-                                                                               if not d.closed]}[self.kind]
-                for b in ref:
-                    if self.kind == 'echo':
-                        w.mqueue.append(mido.Message.from_bytes(b))
-                    for i in targets:
-                        w.mdevs[i].send(b)
+                try:
+                    for b in ref:
+                        targets = {'device': [0], 'ioport': [1], 'echo': [], 'multi': [i for i, d in enumerate(w.mdevs)
+                                                                                       if not d.closed]}[self.kind]
+                        if self.kind == 'echo':
+                            w.mqueue.append(mido.Message.from_bytes(b))
+                        for i in targets:
+                            w.mdevs[i].send(b)
+                except ModelOSError:
+                    failed = True
+            if failed:
+                if res[0] != 'exc' or not isinstance(res[1], OSError):
+                    self._fail(f'{kind}-device-error', f'device raised OSError but {kind}() gave {res}')
+            elif res[0] != 'ok':
+                self._fail(f'{kind}-raises', f'{res}')
         elif kind == 'poll':
             want = w.m_poll()
             res, sleeps = self._call(port.poll)
@@ -508,6 +544,10 @@ def make_machine(kind, autoreset):
         def eof(self):
             self.ops.append(['eof'])
 
+        @rule(di=st.integers(0, 1), k=st.sampled_from([0, 1, 5, 31, 32, 40]))
+        def device_starts_failing(self, di, k):
+            self.ops.append(['fail_sends', di, k])
+
         @rule(acts=st.lists(st.one_of(st.tuples(st.just('arrive'), st.integers(0, 1), st.one_of(ARR, SPLIT)).map(list),
                                       st.just(['eof'])), max_size=4))
         def script(self, acts):
@@ -556,7 +596,18 @@ def enum_selfclose(rec, shard):
                               sample=(n == 2 and pos == 1 and pre == 0 and drain == 'iterate'))
 
 
+def enum_failing_reset(rec, shard):
+    """The device starts failing after k sends, for every k around the 32 reset messages; then close (twice)."""
+    for kind, ar in (('device', True), ('ioport', False)):
+        for k in list(range(0, 34)):
+            for pre in (0, 2):
+                ops = [['send', i] for i in range(pre)] + [['fail_sends', 1 if kind == 'ioport' else 0, k],
+                                                           ['close'], ['close'], ['with'], ['send', 1], ['poll']]
+                rec.check({'kind': kind, 'autoreset': ar, 'ops': ops}, sample=(k == 5 and pre == 0))
+
+
 def main(ctx):
+    ctx.pmap('enum_failing_reset', [0])
     ctx.pmap('enum_selfclose', [False, True])
     n = 500 if ctx.tier == 'quick' else 6000
     steps = 25 if ctx.tier == 'quick' else 40
